@@ -692,6 +692,44 @@ def run_round5(chk, rng, judge, mult, emit):
         if not H.same_arrays(arrs, before) or any(shared) or not same:
             chk.finding("tensorly.cp_tensor.cp_permute_factors", {"w": w, "fs": fs, "ls": ls}, "cp_permute_factors touched its operand / returned memory shared with it", "cp_permute_heap")
 
+    # --- (G) round 6: tucker_normalize on (core, factors) that are NOT valid Tucker tensors: NumPy broadcasting decides
+    for it in range(20 * mult):
+        core, fs, feat = H.gen_tucker(rng, float_=True)
+        N = len(fs)
+        k = rng.randrange(N)
+        kind = rng.choice(["core1", "fac1", "extra1", "extra_last", "fewer", "mismatch", "core1d", "valid"])
+        cv, fv = core, list(fs)
+        if kind == "core1":
+            cv = np.take(core, [0], axis=k)
+        elif kind == "fac1":
+            fv[k] = fs[k][:, :1]
+        elif kind == "extra1":
+            fv = fv + [H.rint(rng, -3, 3, (2, 1)).astype(np.float64) / 4]
+        elif kind == "extra_last":
+            fv = fv + [H.rint(rng, -3, 3, (2, core.shape[-1])).astype(np.float64) / 4]
+        elif kind == "fewer":
+            fv = fv[:-1]
+        elif kind == "mismatch":
+            fv[k] = np.concatenate([fs[k], fs[k][:, :1], fs[k][:, :1]], axis=1)
+        elif kind == "core1d":
+            c_last = fs[1].shape[1]
+            cv = H.rint(rng, -3, 3, (c_last,)).astype(np.float64) / 2
+            fv = [fs[0][:, :1], fs[1]]
+        st, out = call(tucker_normalize, (cv.copy(), cps(fv)))
+        tape = "[" + "; ".join(qrow(np.sqrt(np.sum(f * f, axis=0))) for f in fv) + "]"
+        if st != "ok":
+            lit = "Err"
+        else:
+            ofs = [np.asarray(f, dtype=float) for f in out[1]]
+            oc = np.asarray(out[0], dtype=float)
+            if all(f.ndim == 2 for f in ofs) and np.all(np.isfinite(oc)) and small([oc.shape, out.shape, out.rank]):
+                lit = f"(Ok ({C.nat_list([int(d) for d in out.shape])}, {C.nat_list([int(d) for d in out.rank])}, ({qtens(oc)}, {qmats(ofs)})))"
+            else:
+                lit = "(Ok ([99999]%nat, [99999]%nat, (mk [99999]%nat (@nil Q), (@nil (list (list Q))))))"
+        emit(lambda: f"QTkNormBc {tape} {qtens(cv)} {qmats(fv)} {lit}", ("tucker_normalize", "broadcast", kind, tuple(cv.shape), shp(fv)))
+        chk.count(key=("tucker_normalize-bc", kind, st), nontrivial=kind != "valid")
+        chk.hist("tucker_normalize_invalid", kind + ":" + st)
+
     # --- (E) the documented meaning of max_rank
     for it in range(12 * mult):
         K = rng.randint(1, 3)
